@@ -83,9 +83,14 @@ def make_probes(decl, schema):
                 if abs(lo) < UNBOUNDED:
                     probes.append((name, lo - _eps(lo), 'below-min', dom))
                     probes.append((name, lo, 'min', dom))
+                    # far outside and negative: code that treats "a negative number" as a flag rather than as a value
+                    span = (abs(lo) + abs(hi)) if abs(hi) < UNBOUNDED else abs(lo) + 1.0
+                    probes.append((name, -(span + 1.5), 'far-below-min', dom))
                 if abs(hi) < UNBOUNDED:
                     probes.append((name, hi, 'max', dom))
                     probes.append((name, hi + _eps(hi), 'above-max', dom))
+                    probes.append((name, (abs(lo) + abs(hi)) * 10.0 + 1.5 if abs(lo) < UNBOUNDED else abs(hi) * 10.0 + 1.5,
+                                   'far-above-max', dom))
             elif p.cls == 'intParameter':
                 allow = sorted(set(int(x) for x in (p.AllowableRange or [])))
                 if not allow:
@@ -97,6 +102,8 @@ def make_probes(decl, schema):
                 probes.append((name, allow[0], 'min', dom))
                 probes.append((name, allow[-1], 'max', dom))
                 probes.append((name, allow[-1] + 1, 'above-max', dom))
+                probes.append((name, -(abs(allow[0]) + abs(allow[-1]) + 7), 'far-below-min', dom))
+                probes.append((name, (abs(allow[0]) + abs(allow[-1])) * 10 + 7, 'far-above-max', dom))
                 if len(allow) < allow[-1] - allow[0] + 1:          # the set has holes: probe one non-member inside the span
                     aset = set(allow)
                     mid = (allow[0] + allow[-1]) // 2
@@ -108,7 +115,7 @@ def make_probes(decl, schema):
     for name, val, kind, dom in probes:
         d = dom.get('default')
         try:
-            if d is not None and float(getattr(d, 'int_value', d)) == float(val) and kind in ('below-min', 'above-max', 'non-member'):
+            if d is not None and float(getattr(d, 'int_value', d)) == float(val) and kind in ('below-min', 'above-max', 'non-member', 'far-below-min', 'far-above-max'):
                 continue                       # the documented 'not provided' sentinel
         except (TypeError, ValueError):
             pass
@@ -489,7 +496,7 @@ def run(ctx):
                          'api-bound-accepted': 20})
     ctx.rule = ('for each configuration family (shipped example bases: standard reservoir models 0-5, heat pump, chiller, '
                 'district heating, add-ons, S-DAC-GT, overpressure, multi-segment, SUTRA, AGS-Wanju, SBT; plus the HIP-RA-X program) every float and '
-                'integer parameter offered to the reader is probed at {just below min, min, max, just above max, non-member '
+                'integer parameter offered to the reader is probed at {far below min (negative), just below min, min, max, just above max, far above max, non-member '
                 'option} (the out-of-range DefaultValue sentinel excluded); the per-family product is enumerated completely '
                 '(exhaustive for the families listed); distinct = (family, parameter, probe kind); every probe is '
                 'non-trivial (it changes exactly one parameter of an accepted base); a stratified sample is repeated '
